@@ -95,25 +95,22 @@ def theorems_of(prop):
     return re.findall(r"^\s*(?:Theorem|Corollary)\s+(\w+)", src, re.M)
 
 
-def print_assumptions(prop, names):
-    """Ask Coq (fresh coqc run) for the axioms each property theorem depends on.
-    Returns {theorem: [axioms]} for the theorems that exist in the compiled Props file."""
-    d = os.path.join(BUILD, "pa", str(os.getpid())); os.makedirs(d, exist_ok=True)
+def _pa_chunk(prop, names, tag):
+    d = os.path.join(BUILD, "pa", f"{os.getpid()}_{tag}"); os.makedirs(d, exist_ok=True)
     fn = os.path.join(d, f"PA_{prop}.v")
     with open(fn, "w") as f:
         f.write(f"From TLV Require Import Props.{prop}.\n")
         for n in names:
             f.write(f'Goal True. idtac "@@BEGIN {n}". exact I. Qed.\nPrint Assumptions {n}.\n')
         f.write('Goal True. idtac "@@END". exact I. Qed.\n')
-    r = subprocess.run(["timeout", "600", "coqc", "-R", os.path.join(COQ, "theories"), "TLV", fn],
+    r = subprocess.run(["timeout", "900", "coqc", "-R", os.path.join(COQ, "theories"), "TLV", fn],
                        capture_output=True, text=True, cwd=d)
-    out = r.stdout
-    res = {}
     import shutil
     shutil.rmtree(d, ignore_errors=True)
+    res = {}
     if r.returncode != 0:
         return res, r.stdout + r.stderr
-    chunks = re.split(r"@@BEGIN (\w+)\n", out)
+    chunks = re.split(r"@@BEGIN (\w+)\n", r.stdout)
     for i in range(1, len(chunks), 2):
         name, body = chunks[i], chunks[i + 1].split("@@END")[0]
         if "Closed under the global context" in body:
@@ -121,7 +118,42 @@ def print_assumptions(prop, names):
         else:
             axs = re.findall(r"^([A-Za-z_][\w.']*)\s*:", body, re.M)
             res[name] = sorted(a for a in set(axs) if a not in ("Axioms", "Variables", "Hypotheses"))
-    return res, out
+    return res, r.stdout
+
+
+def _vo_stamp():
+    h = hashlib.sha1()
+    for r, _, fs in sorted(os.walk(os.path.join(COQ, "theories"))):
+        for f in sorted(fs):
+            if f.endswith(".vo"):
+                st = os.stat(os.path.join(r, f))
+                h.update(f"{r}/{f}:{st.st_mtime_ns}:{st.st_size};".encode())
+    return h.hexdigest()
+
+
+def print_assumptions(prop, names):
+    """Ask Coq (fresh coqc runs, in parallel chunks) for the axioms each property theorem depends on.
+    Returns {theorem: [axioms]} for the theorems that exist in the compiled Props file.  The answer is a function of the
+    compiled .vo files only, so it is cached under build/ keyed by their time stamps and sizes (any rebuild invalidates it)."""
+    from concurrent.futures import ThreadPoolExecutor
+    cache = os.path.join(BUILD, "pa_cache", f"{prop}.json")
+    stamp = _vo_stamp() + ":" + ",".join(names)
+    try:
+        c = json.load(open(cache))
+        if c.get("stamp") == stamp and not os.environ.get("VERIF_NO_PA_CACHE"):
+            return c["res"], "(cached: compiled objects unchanged since the last Print Assumptions run)"
+    except Exception:
+        pass
+    k = max(1, min(6, len(names) // 6))
+    parts = [names[i::k] for i in range(k)]
+    res, outs = {}, []
+    with ThreadPoolExecutor(k) as ex:
+        for r, o in ex.map(lambda a: _pa_chunk(prop, a[1], a[0]), list(enumerate(parts))):
+            res.update(r); outs.append(o)
+    if all(n in res for n in names):
+        os.makedirs(os.path.dirname(cache), exist_ok=True)
+        json.dump({"stamp": stamp, "res": res}, open(cache, "w"))
+    return res, "\n".join(outs)
 
 
 STDLIB_AXIOM_PREFIXES = ("ClassicalDedekindReals.", "FunctionalExtensionality.", "Classical_Prop.",
@@ -179,6 +211,8 @@ def run_case_shards(prop, header, case_type, cases, shard=300, timeout=600, tag=
         # for reasons that have nothing to do with its content; a shard that fails twice stays "not evaluated"
         still = []
         sizes = dict(files)
+        if any("inconsistent assumptions" in (b.get("stderr") or "") for b in broken):
+            coq_make([f"theories/Props/{prop}.vo", f"theories/Corr/{prop}.vo"])
         for b in broken:
             fn = b["shard"]; n = sizes[fn]
             p = subprocess.Popen(["timeout", str(2 * timeout), "coqc", "-w", "none", "-R", os.path.join(COQ, "theories"), "TLV", fn],
@@ -429,7 +463,7 @@ class Check:
         cov["checker_cmd"] = " ; ".join(self.checker_cmds) or "none"
         axs = sorted({a for v in self.axioms.values() for a in v})
         cov["trusted_base"] = ["Coq 8.16.1 kernel + vm_compute (no native_compute)",
-                               "axioms reported by Print Assumptions on this run: " + (", ".join(axs) if axs else "none (closed under the global context)"),
+                               "axioms reported by Print Assumptions for the compiled objects this run used (re-computed whenever any .vo changed): " + (", ".join(axs) if axs else "none (closed under the global context)"),
                                "hand-written Gallina model tied to the code by this run's correspondence check (sampled, not universal)",
                                "harness: generators, literal printers, comparators"] + self.trusted
         cov["axioms_per_theorem"] = self.axioms
